@@ -201,7 +201,8 @@ fn deliver(e: &mut Emu, mm: &mut MemModel, c: &Case, bytes: &[u8]) -> Result<u8,
                 e.verif_set_paging(latch_shadow);
                 mm.latch = latch_shadow;
             }
-            e.load_screen(Screen::Scr(MemAsset::new(bytes.to_vec()))).map_err(|x| format!("load_screen failed: {:?}", x))?;
+            let chunk = [0usize, 1, 33, 6911][(c.seed % 4) as usize];
+            e.load_screen(Screen::Scr(MemAsset::chunked(bytes.to_vec(), chunk))).map_err(|x| format!("load_screen failed: {:?}", x))?;
             Ok(visible_bank(machine, false))
         }
         Path::Sna | Path::SzxStored | Path::SzxZlib => {
@@ -248,7 +249,7 @@ fn deliver(e: &mut Emu, mm: &mut MemModel, c: &Case, bytes: &[u8]) -> Result<u8,
                     szx::write(&st, &ram, &layout)
                 }
             };
-            let asset = MemAsset::new(file);
+            let asset = MemAsset::chunked(file, [0usize, 1, 100, 16383][(c.seed % 4) as usize]);
             let res = match c.path {
                 Path::Sna => e.load_snapshot(Snapshot::Sna(asset)),
                 _ => e.load_snapshot(Snapshot::Szx(asset)),
@@ -629,6 +630,7 @@ pub fn replay(run: &mut Run, phase: &str, case: &serde_json::Value) -> Result<()
 pub const LEVEL: &str = "exploration";
 pub const RULE: &str = "paths: 6912-byte screen contents (uniform; single bits with every attribute value; per-third address-bit patterns; BRIGHT+FLASH everywhere; sparse) delivered by one of {CPU LDIR through 0x4000, CPU LDIR through 0xC000 with bank 5/7 paged, execute_poke through 0x4000 or through 0xC000 with bank 5/7 paged, SCR load, SNA load, SZX load with stored or zlib pages, ROM LD-BYTES served by fast load to 0x4000 or to 0xC000 with bank 5/7 paged} on 48K/128K with either 128K screen bank displayed, after different content had been on screen; then 1..40 frames with the CPU in DI;JR $ — every delivered canvas must equal the independent standard decode of the bank the ULA displays, with one FLASH phase per frame that toggles in runs of exactly 16 frames; on the 128K the other screen bank is then shown by flipping the screen-select bit, and after a generated history of 1..4 real paging-port writes (lock values included) the bank selected by the last accepted write must be displayed; on the 48K a SNA snapshot taken with SP inside the display file (the format parks PC below SP and restores the bytes) must leave the picture as it was. beam-relative: one byte written by LD (HL),A (through 0x4000, or on the 128K through 0xC000 into the displayed bank 7) at a chosen T >= 64 T before (after) the ULA reaches it must (must not) appear in the frame in progress and must appear in the next. non-trivial = content with >= 64 distinct byte values delivered by a path other than plain LDIR through 0x4000 (beam phase: every case); distinct = hash of the case";
 pub const ASSUMPTIONS: &[&str] = &[
+    "SCR, SNA and SZX files are delivered all at once or in short reads (1, 33/100, nearly-whole) depending on the case seed",
     "decoder is written from the formula in the property; canvas read from the harness FrameBuffer after each completed frame",
     "ULA reaches byte (line y, column c) at T = first-pixel T + y * line length + 4c; only writes at least 64 T away are judged",
     "which 128K bank is displayed is taken from the machine's paging latch (hook), so a loader that mis-sets the latch is C14's finding, not C08's",
